@@ -8,11 +8,19 @@
 //!   C34 mlabel s= | alabel s= | box s=                      -> ok none | ok some:<hex> | panic
 //!   C34 lwi l= n=<dec>                                      -> ok <hex> | panic
 //!   C34 link s=                                             -> ok <hex> <n> | panic
+//!   C34 vendorok v=                                         -> ok <0|1>
+//!   C34 newlabel g= v=<none|hex> cv=<1|2>                   -> ok <hex>      (Claim::new; g = the fresh UUID read off the label)
+//!   C34 blabel g= v=<none|hex> cv=<1|2>                     -> ok <hex> | err (public Builder: sign + read; err = Err(BadParam))
+//!   C34 relabel s= n=                                       -> ok none | ok some:<hex> | panic (the store's relabel step re-enacted with the real parse / Display)
 //!
 //! The property oracle (round-trip laws) is evaluated on the real functions only.
 
+use std::io::Cursor;
+use std::sync::OnceLock;
+
 use c2pa::verif_hooks::c34 as hk;
-use vh::common::{guarded, hex, main_with, Rng, Run};
+use c2pa::{Builder, Context, EphemeralSigner, Reader};
+use vh::common::{fixtures, guarded, hex, main_with, Rng, Run};
 
 fn main() {
     main_with("C34", run);
@@ -141,6 +149,63 @@ impl<'a> Drv<'a> {
         let q = s.to_string();
         let r = guarded(move || hk::assertion_label_from_link(&q));
         self.rec("link", format!("C34 link s={}", hx(s)), r, |(l, n)| format!("{} {}", hx(l), n))
+    }
+
+    fn vendorok(&mut self, v: &str) -> (usize, Option<bool>) {
+        let q = v.to_string();
+        let r = guarded(move || hk::is_valid_vendor(&q));
+        self.rec("vendorok", format!("C34 vendorok v={}", hx(v)), r, |b| if *b { "1".into() } else { "0".into() })
+    }
+
+    /// `Claim::new(_, vendor, cv).label()`; the request carries the UUID found in the label.
+    fn newlabel(&mut self, vendor: Option<&str>, cv: usize) -> (usize, Option<String>) {
+        let q = vendor.map(|v| v.to_string());
+        let r = guarded(move || hk::new_claim_label(q.as_deref(), cv));
+        let g = r.as_ref().ok().and_then(|l| find_uuid(l)).unwrap_or_default();
+        let req = format!("C34 newlabel g={} v={} cv={}", hx(&g), vendor.map(hx).unwrap_or("none".into()), cv);
+        self.rec("newlabel", req, r, |s| hx(s))
+    }
+
+    /// The public path: `Builder` with `definition.vendor`, signed (verify_after_sign off, so that
+    /// whatever label is generated gets written) and read back. `Ok(Err(kind))` = the Builder refused.
+    fn blabel(&mut self, vendor: Option<&str>, cv: usize) -> (usize, Option<Result<BuilderOut, String>>) {
+        let q = vendor.map(|v| v.to_string());
+        let r = guarded(move || builder_label(q.as_deref(), cv, None));
+        let g = match &r {
+            Ok(Ok(o)) => find_uuid(&o.label).unwrap_or_default(),
+            _ => String::new(),
+        };
+        let req = format!("C34 blabel g={} v={} cv={}", hx(&g), vendor.map(hx).unwrap_or("none".into()), cv);
+        self.run.count("op:blabel");
+        let imp = match &r {
+            Ok(Ok(o)) => format!("ok {}", hx(&o.label)),
+            Ok(Err(k)) if k == "BadParam" => "err".to_string(),
+            Ok(Err(k)) => format!("fail:{k}"),
+            Err(_) => "panic".to_string(),
+        };
+        let i = self.run.case(req.clone(), imp);
+        match r {
+            Ok(v) => (i, Some(v)),
+            Err(e) => {
+                self.run.fail(i, "panic", format!("Builder panicked: {e} on {req}"));
+                (i, None)
+            }
+        }
+    }
+
+    /// The relabelling step of `Store`'s ingredient conflict resolution, re-enacted with the real
+    /// `manifest_label_to_parts` and `ManifestParts::to_string` (the step itself is inline in
+    /// `Store::get_store_from_ingredient…` and cannot be called in isolation).
+    fn relabel(&mut self, s: &str, n: usize) -> (usize, Option<Option<String>>) {
+        let q = s.to_string();
+        let r = guarded(move || {
+            hk::manifest_label_to_parts(&q).map(|mut mp| {
+                mp.version = Some(n);
+                mp.reason = Some(1);
+                hk::parts_to_string(&mp)
+            })
+        });
+        self.rec("relabel", format!("C34 relabel s={} n={}", hx(s), n), r, opt_hex)
     }
 
     /// oracle helper
@@ -351,6 +416,162 @@ fn malformed_label(rng: &mut Rng) -> String {
     s
 }
 
+
+// ---------------------------------------------------------------- public Builder path
+
+pub struct BuilderOut {
+    label: String,
+    malformed: bool,
+    bytes: Vec<u8>,
+    assertion_labels: Vec<String>,
+}
+
+fn source_jpeg() -> &'static Vec<u8> {
+    static SRC: OnceLock<Vec<u8>> = OnceLock::new();
+    SRC.get_or_init(|| std::fs::read(fixtures().join("IMG_0003.jpg")).expect("fixture IMG_0003.jpg"))
+}
+
+fn error_kind(e: &c2pa::Error) -> String {
+    let d = format!("{e:?}");
+    d.split(|c: char| !c.is_ascii_alphanumeric()).next().unwrap_or("").to_string()
+}
+
+/// Signs the fixture JPEG with a definition carrying `vendor` (and optionally one extra custom
+/// assertion), reads the result back with a fresh Reader.
+fn builder_label(vendor: Option<&str>, cv: usize, extra_assertion: Option<&str>) -> Result<BuilderOut, String> {
+    let mut assertions = vec![serde_json::json!(
+        {"label": "c2pa.actions", "data": {"actions": [{"action": "c2pa.created", "digitalSourceType": "http://cv.iptc.org/newscodes/digitalsourcetype/digitalCapture"}]}}
+    )];
+    if let Some(l) = extra_assertion {
+        assertions.push(serde_json::json!({"label": l, "data": {"k": "v"}}));
+    }
+    let mut def = serde_json::json!({
+        "title": "t", "format": "image/jpeg", "claim_version": cv,
+        "claim_generator_info": [{"name": "verif-harness", "version": "0.1"}],
+        "assertions": assertions
+    });
+    if let Some(v) = vendor {
+        def["vendor"] = serde_json::json!(v);
+    }
+    let signer = EphemeralSigner::new("verif.test").map_err(|e| error_kind(&e))?;
+    let ctx = Context::new()
+        .with_settings(r#"{"verify":{"verify_after_sign":false}}"#)
+        .map_err(|e| error_kind(&e))?
+        .with_signer(signer);
+    let mut b = Builder::from_context(ctx).with_definition(def.to_string().as_str()).map_err(|e| error_kind(&e))?;
+    let mut input = Cursor::new(source_jpeg().clone());
+    let mut output = Cursor::new(Vec::new());
+    b.save_to_stream("image/jpeg", &mut input, &mut output).map_err(|e| error_kind(&e))?;
+    let bytes = output.get_ref().clone();
+    output.set_position(0);
+    let rd = Reader::from_context(Context::new()).with_stream("image/jpeg", &mut output).map_err(|e| format!("read:{}", error_kind(&e)))?;
+    let label = rd.active_label().unwrap_or("").to_string();
+    let malformed = rd.validation_status().map(|v| v.iter().any(|s| s.code() == "claim.malformed")).unwrap_or(false);
+    let assertion_labels = rd.active_manifest().map(|m| m.assertions().iter().map(|a| a.label().to_string()).collect()).unwrap_or_default();
+    Ok(BuilderOut { label, malformed, bytes, assertion_labels })
+}
+
+/// first hyphenated lower-case UUID inside `s`
+fn find_uuid(s: &str) -> Option<String> {
+    let b = s.as_bytes();
+    if b.len() < 36 {
+        return None;
+    }
+    'outer: for i in 0..=b.len() - 36 {
+        for (k, &c) in b[i..i + 36].iter().enumerate() {
+            let dash = matches!(k, 8 | 13 | 18 | 23);
+            if dash != (c == b'-') || (!dash && !c.is_ascii_hexdigit()) {
+                continue 'outer;
+            }
+        }
+        return Some(s[i..i + 36].to_string());
+    }
+    None
+}
+
+/// any vendor string a caller may put into a manifest definition
+fn any_vendor(rng: &mut Rng) -> String {
+    const BAD: &[&str] = &[
+        "", " ", "my vendor", "My Vendor", "a:b", ":", "a/b", "/", "a=b", "=", "tab\tbed", "line\nfeed", "caf\u{e9}", "\u{1F600}",
+        "abcdefghijklmnopqrstuvwxyz0123456", "ABCDEFGHIJKLMNOPQRSTUVWXYZ0123456789", " lead", "trail ", "a\u{1}b", "\u{7f}", "a\u{a0}b",
+        "urn:uuid", "c2pa/x", "x:1_2", "acme:", ":acme", "\u{130}stanbul", "\u{df}",
+    ];
+    match rng.below(10) {
+        0..=3 => vendor(rng),
+        4 => vendor(rng).to_uppercase(),
+        5..=7 => rng.pick(BAD).to_string(),
+        _ => {
+            // a valid vendor with one character replaced / inserted
+            let mut v: Vec<char> = vendor(rng).chars().collect();
+            let c = *rng.pick(&[':', '/', '=', ' ', '\t', '\u{e9}', '\u{0}', '~', '!', 'Z', '\u{7f}']);
+            let at = rng.below(v.len() as u64 + 1) as usize;
+            if rng.chance(1, 2) && at < v.len() {
+                v[at] = c;
+            } else {
+                v.insert(at, c);
+            }
+            v.into_iter().collect()
+        }
+    }
+}
+
+/// a label that parses although `Display` never writes it (signs, leading zeros, extra `_` pieces,
+/// empty fields, 1.x tails), sometimes inside a URI, sometimes with `/` or `=` in odd places
+fn foreign_label(rng: &mut Rng) -> String {
+    let g = match rng.below(6) {
+        0 => "g".to_string(),
+        1 => uuid(rng, true),
+        2 => "".to_string(),
+        3 => format!("a{}b", rng.pick(&["/", "=", "/c2pa/", "c2pa/", " ", "."])),
+        _ => uuid(rng, false),
+    };
+    let num = |rng: &mut Rng| -> String {
+        let n = number(rng);
+        match rng.below(6) {
+            0 => format!("+{n}"),
+            1 => format!("00{n}"),
+            2 => format!("+0{n}"),
+            _ => n.to_string(),
+        }
+    };
+    let mut s = match rng.below(8) {
+        0 => format!("urn:uuid:{g}"),
+        1 => format!("urn:uuid:{g}:{}", rng.pick(&["x", "t=q", "", "a:b:c", "1_2", "x/y"])),
+        2 => format!("{}:urn:uuid:{g}", rng.pick(&["acme", "", "urn", "a b", "x=y", "a/b", "caf\u{e9}", "c2pa"])),
+        _ => {
+            let mut s = format!("urn:c2pa:{g}");
+            let shape = rng.below(8);
+            if shape >= 1 {
+                s.push(':');
+                if shape >= 3 {
+                    s.push_str(&if rng.chance(1, 5) { rng.pick(&["x=y", "a/b", "A.B", "~", "c2pa"]).to_string() } else { vendor(rng) });
+                }
+            }
+            if shape >= 2 {
+                s.push(':');
+                if shape >= 4 || shape == 2 {
+                    s.push_str(&num(rng));
+                    if rng.chance(1, 2) {
+                        s.push('_');
+                        s.push_str(&num(rng));
+                        if rng.chance(1, 4) {
+                            s.push_str(*rng.pick(&["_", "_9", "_x", "_=", "_/c2pa/z"]));
+                        }
+                    }
+                }
+            }
+            s
+        }
+    };
+    match rng.below(8) {
+        0 => s = hk::to_manifest_uri(&s),
+        1 => s = hk::to_assertion_uri(&s, "c2pa.actions"),
+        2 => s = hk::to_signature_uri(&s),
+        _ => {}
+    }
+    s
+}
+
 // ---------------------------------------------------------------- scenarios
 
 fn scenario_wf(d: &mut Drv, rng: &mut Rng) {
@@ -506,6 +727,117 @@ fn scenario_sdk(d: &mut Drv, rng: &mut Rng) {
     d.run.nontrivial(format!("sdk {label}"));
 }
 
+/// Vendors as a caller may give them: the Builder's vendor test, `Claim::new`, and (sampled) the
+/// whole public path Builder -> sign -> Reader.
+fn scenario_vendor(d: &mut Drv, rng: &mut Rng, with_builder: bool) {
+    let v = any_vendor(rng);
+    let cv = if rng.chance(1, 3) { 1 } else { 2 };
+    let (_, ok) = d.vendorok(&v);
+    let Some(ok) = ok else { return };
+    d.run.count(if ok { "vendor:accepted" } else { "vendor:refused" });
+    if v.is_ascii() {
+        // Claim::new itself (crate-private) only lower-cases
+        let (i, l) = d.newlabel(Some(&v), cv);
+        if let (true, Some(l)) = (ok, l) {
+            let (_, got) = d.parts(&l);
+            match got {
+                Some(Some(p)) if p.cgi.as_deref() == Some(v.to_lowercase().as_str()) && p.is_v1 == (cv == 1) => {
+                    let (j, m) = d.opt1("mlabel", &hk::to_signature_uri(&l));
+                    d.expect(j, "vendor-accepted-label-uri", &m, &Some(l.clone()), "manifest_label_from_uri(to_signature_uri(label of an accepted vendor))");
+                }
+                Some(other) => d.run.fail(i, "vendor-accepted-label-unparsable", format!("is_valid_vendor({v:?}) but Claim::new gives {l:?}, parsed as {other:?}")),
+                None => {}
+            }
+        }
+    }
+    if with_builder {
+        let (i, out) = d.blabel(Some(&v), cv);
+        match out {
+            Some(Ok(o)) => {
+                d.run.count("builder:signed");
+                d.run.nontrivial(format!("builder {}", o.label));
+                let want = Some(v.to_lowercase());
+                let got = hk::manifest_label_to_parts(&o.label);
+                let good = matches!(&got, Some(p) if p.cgi == want && p.is_v1 == (cv == 1) && p.version.is_none() && p.reason.is_none());
+                if !good || o.malformed {
+                    d.run.fail(i, "builder-label-unparsable", format!("Builder(vendor={v:?}, claim_version={cv}) wrote the manifest label {:?}: manifest_label_to_parts -> {got:?}, reader reports claim.malformed: {}", o.label, o.malformed));
+                }
+                if !ok {
+                    d.run.fail(i, "builder-vendor-test", format!("vendor {v:?} fails is_valid_vendor but the Builder signed with it"));
+                }
+            }
+            Some(Err(k)) => {
+                d.run.count(&format!("builder:refused:{k}"));
+                if ok {
+                    d.run.fail(i, "builder-vendor-test", format!("vendor {v:?} passes is_valid_vendor but the Builder failed with {k}"));
+                }
+            }
+            None => {}
+        }
+    }
+}
+
+/// Labels as they may come from a file: parse first, then Display, then parse; the relabel step.
+fn scenario_foreign(d: &mut Drv, rng: &mut Rng) {
+    let s = if rng.chance(1, 6) { malformed_label(rng) } else { foreign_label(rng) };
+    let (_, got) = d.parts(&s);
+    let Some(Some(p)) = got else {
+        d.run.count("foreign:rejected");
+        return;
+    };
+    d.run.count("foreign:parsed");
+    let (_, is_uri) = d.opt1("mlabel", &s);
+    let in_scope = !s.contains('/') || matches!(is_uri, Some(Some(_)));
+    d.run.count(if in_scope { "foreign:bare-or-uri" } else { "foreign:slash-not-uri" });
+    let (_, l2) = d.disp(&p);
+    let Some(l2) = l2 else { return };
+    let (i, again) = d.parts(&l2);
+    if in_scope {
+        d.run.nontrivial(format!("foreign {s}"));
+        d.expect(i, "parts-display-idempotent", &again, &Some(p.clone()), "manifest_label_to_parts(parts.to_string()) for parts parsed from a label / manifest URI");
+    }
+    let n = number(rng);
+    let (i, l3) = d.relabel(&s, n);
+    if let (true, Some(l3)) = (in_scope, l3) {
+        let Some(l3) = l3 else {
+            d.run.fail(i, "relabel-roundtrip", format!("relabel of parsable {s:?} failed"));
+            return;
+        };
+        let (j, got) = d.parts(&l3);
+        if p.is_v1 {
+            d.run.count("relabel:v1-unchanged");
+            d.expect(j, "relabel-roundtrip", &Some(l3.clone()), &l2, "a 1.x label is printed without version and reason");
+        } else {
+            let mut q = p.clone();
+            q.version = Some(n);
+            q.reason = Some(1);
+            d.expect(j, "relabel-roundtrip", &got, &Some(q), "relabelled 2.x label parses to the old parts with new version, reason 1");
+            if p.version != Some(n) && hk::manifest_label_from_uri(&s).unwrap_or(s.clone()) == l3 {
+                d.run.fail(j, "relabel-roundtrip", format!("relabel of {s:?} to version {n} returned the same label"));
+            }
+        }
+    }
+}
+
+/// Ingredient-thumbnail labels with a format suffix of any case: the pair read back carries the
+/// lower-cased suffix.
+fn scenario_thumb_case(d: &mut Drv, rng: &mut Rng) {
+    let n = rng.range(1, 6) as usize;
+    let f: String = (0..n).map(|_| *rng.pick(b"abcdefghijklmnopqrstuvwxyzABCDEFGHIJKLMNOPQRSTUVWXYZ0123456789-+") as char).collect();
+    let base = format!("c2pa.thumbnail.ingredient.{f}");
+    let want = format!("c2pa.thumbnail.ingredient.{}", f.to_ascii_lowercase());
+    let inst = if rng.chance(1, 3) { 0 } else { number(rng) };
+    d.run.count(if f == f.to_ascii_lowercase() { "thumb-case:lower" } else { "thumb-case:mixed" });
+    let (_, li) = d.lwi(&base, inst);
+    if let Some(li) = li {
+        d.run.nontrivial(format!("thumb {li}"));
+        let (i, got) = d.link(&li);
+        d.expect(i, "instance-roundtrip-normalised", &got, &(want.clone(), inst), "assertion_label_from_link(label_with_instance(thumbnail label of any case))");
+        let (i, got) = d.link(&hk::to_assertion_uri("urn:uuid:m", &li));
+        d.expect(i, "instance-roundtrip-normalised", &got, &(want, inst), "the same through an assertion URI");
+    }
+}
+
 /// label-with-suffix lookalikes: several `__`, non-numeric or signed instances, odd thumbnails
 fn malformed_instance(rng: &mut Rng) -> String {
     const TAIL: &[&str] = &[
@@ -614,6 +946,98 @@ fn witnesses(d: &mut Drv) {
     let (_, got) = d.str1("rel", &su);
     d.run.obligations.insert("witness:signature-uri-stays-absolute".into(), got == Some(su));
 
+    // (f) the parse-first direction is not idempotent on a string with `/` that is not a manifest URI
+    let (_, got) = d.parts("urn:uuid:a/c2pa/b:t=q");
+    let ok_f = match got {
+        Some(Some(p)) if p.guid == "a/c2pa/b" && p.is_v1 && p.cgi.is_none() => {
+            let (_, l) = d.disp(&p);
+            match l {
+                Some(l) => {
+                    let (_, again) = d.parts(&l);
+                    l == "urn:uuid:a/c2pa/b" && again == Some(None)
+                }
+                None => false,
+            }
+        }
+        _ => false,
+    };
+    d.run.obligations.insert("witness:parse-first-is-not-idempotent-on-slash-label".into(), ok_f);
+
+    // (g) an ingredient-thumbnail label with an upper-case suffix comes back lower-cased
+    let up = "c2pa.thumbnail.ingredient.JPEG";
+    let (_, l0) = d.lwi(up, 0);
+    let (_, l2) = d.lwi(up, 2);
+    let ok_g = match (l0, l2) {
+        (Some(l0), Some(l2)) => {
+            let (_, g0) = d.link(&l0);
+            let (_, g2) = d.link(&l2);
+            l0 == up
+                && l2 == "c2pa.thumbnail.ingredient__2.jpeg"
+                && g0 == Some(("c2pa.thumbnail.ingredient.jpeg".to_string(), 0))
+                && g2 == Some(("c2pa.thumbnail.ingredient.jpeg".to_string(), 2))
+        }
+        _ => false,
+    };
+    d.run.obligations.insert("witness:upper-case-thumbnail-suffix-is-read-back-lower-case".into(), ok_g);
+    // …and the SDK never writes such a box label: Assertion::label() normalises it
+    let ok_g2 = match guarded(|| builder_label(None, 2, Some("c2pa.thumbnail.ingredient.JPEG"))) {
+        Ok(Ok(o)) => {
+            let has = |pat: &str| o.bytes.windows(pat.len()).any(|w| w == pat.as_bytes());
+            has("c2pa.thumbnail.ingredient.jpeg") && !has("c2pa.thumbnail.ingredient.JPEG") && !o.malformed
+                && o.assertion_labels.iter().any(|l| l == "c2pa.thumbnail.ingredient.jpeg")
+        }
+        _ => false,
+    };
+    d.run.obligations.insert("witness:upper-case-thumbnail-suffix-is-never-written".into(), ok_g2);
+
+    // (h) Claim::new only lower-cases the vendor (Props: newLabel_witness) …
+    let mut ok_h = true;
+    for (v, cv) in [("a:b", 2), ("My Vendor", 2), ("abcdefghijklmnopqrstuvwxyz0123456", 2), ("a:b", 1)] {
+        let (_, l) = d.newlabel(Some(v), cv);
+        match l {
+            Some(l) => {
+                let (_, got) = d.parts(&l);
+                ok_h &= got == Some(None);
+            }
+            None => ok_h = false,
+        }
+    }
+    let (_, l) = d.newlabel(Some("a/b"), 2);
+    ok_h &= match l {
+        Some(l) => {
+            let (_, m) = d.opt1("mlabel", &hk::to_manifest_uri(&l));
+            matches!(m, Some(Some(m)) if m.ends_with(":a") && m != l)
+        }
+        None => false,
+    };
+    let (_, l) = d.newlabel(Some(""), 2);
+    ok_h &= match l {
+        Some(l) => {
+            let (_, got) = d.parts(&l);
+            matches!(got, Some(Some(p)) if p.cgi.is_none())
+        }
+        None => false,
+    };
+    d.run.obligations.insert("witness:claim-new-does-not-sanitise-the-vendor".into(), ok_h);
+    // … and the public Builder refuses every one of them
+    let mut ok_h2 = true;
+    for (v, cv) in [("a:b", 2), ("My Vendor", 2), ("abcdefghijklmnopqrstuvwxyz0123456", 2), ("a:b", 1), ("a/b", 2), ("a=b", 2), ("", 2), ("caf\u{e9}", 2)] {
+        let (_, out) = d.blabel(Some(v), cv);
+        ok_h2 &= matches!(out, Some(Err(k)) if k == "BadParam");
+    }
+    d.run.obligations.insert("builder-refuses-vendors-the-label-cannot-carry".into(), ok_h2);
+    let (_, out) = d.blabel(None, 2);
+    let (_, out1) = d.blabel(Some("Camera+App"), 1);
+    let ok_h3 = matches!(out, Some(Ok(o)) if !o.malformed && o.label.starts_with("urn:c2pa:"))
+        && matches!(out1, Some(Ok(o)) if o.label.starts_with("camera+app:urn:uuid:"));
+    d.run.obligations.insert("builder-accepts-no-vendor-and-mixed-case-vendor".into(), ok_h3);
+
+    // (i) relabelling a 1.x label returns the label itself
+    let (_, got) = d.relabel("urn:uuid:g", 2);
+    d.run.obligations.insert("witness:relabel-of-1x-label-is-unchanged".into(), got == Some(Some("urn:uuid:g".to_string())));
+    let (_, got) = d.relabel("urn:c2pa:3fad1ead-8ed5-44d0-873b-ea5f58adea82:acme", 2);
+    d.run.obligations.insert("relabel-example".into(), got == Some(Some("urn:c2pa:3fad1ead-8ed5-44d0-873b-ea5f58adea82:acme:2_1".to_string())));
+
     // fixed spot checks from the unit tests of labels.rs
     for s in [
         "urn:c2pa:F9168C5E-CEB2-4FAA-B6BF-329BF39FA1E4:acme:2_1:extra",
@@ -650,8 +1074,9 @@ fn witnesses(d: &mut Drv) {
 }
 
 pub fn run(run: &mut Run, rng: &mut Rng) {
-    run.rule = "well-formed scenarios: parts = (uuid GUID, optional vendor of 1..=32 printable non-space ASCII without ':' '/', optional version, optional reason only with a version, none of both for 1.x labels) -> Display -> parse, every URI builder -> every reader, relative/absolute, label_with_instance -> assertion_label_from_link for plain labels (no '/', '=', '__', no trailing '_') and ingredient-thumbnail labels; labels of fresh Claim::new claims; a case is non-trivial when it belongs to a well-formed scenario (distinct by generated label / instanced label); the malformed stream (random concatenations of separators, keywords, digits, whitespace, non-ASCII) only checks model = implementation and absence of panics".to_string();
+    run.rule = "well-formed scenarios: parts = (uuid GUID, optional vendor of 1..=32 printable non-space ASCII without ':' '/', optional version, optional reason only with a version, none of both for 1.x labels) -> Display -> parse, every URI builder -> every reader, relative/absolute, label_with_instance -> assertion_label_from_link for plain labels (no '/', '=', '__', no trailing '_') and ingredient-thumbnail labels; labels of fresh Claim::new claims; vendors as a caller may give them (valid, upper case, with separators / spaces / non-ASCII / over-long / empty) through is_valid_vendor, Claim::new and, sampled, the public Builder -> sign -> Reader path; foreign labels (parsable but never written by Display: signs, leading zeros, extra pieces, empty fields, 1.x tails, inside URIs) through parse -> Display -> parse and the store's relabel step; ingredient-thumbnail labels with a suffix of any case; a case is non-trivial when it belongs to a well-formed scenario (distinct by generated label / instanced label); the malformed stream (random concatenations of separators, keywords, digits, whitespace, non-ASCII) only checks model = implementation and absence of panics".to_string();
     let (n_wf, n_sdk, n_mal) = if run.thorough() { (40_000, 15_000, 250_000) } else { (2_500, 1_000, 12_000) };
+    let (n_vendor, builder_every, n_foreign, n_thumb) = if run.thorough() { (20_000, 10, 60_000, 5_000) } else { (2_000, 10, 5_000, 500) };
     let mut d = Drv { run };
     witnesses(&mut d);
     for _ in 0..n_wf {
@@ -666,6 +1091,18 @@ pub fn run(run: &mut Run, rng: &mut Rng) {
         let mut r = rng.fork();
         scenario_malformed(&mut d, &mut r);
     }
+    for k in 0..n_vendor {
+        let mut r = rng.fork();
+        scenario_vendor(&mut d, &mut r, k % builder_every == 0);
+    }
+    for _ in 0..n_foreign {
+        let mut r = rng.fork();
+        scenario_foreign(&mut d, &mut r);
+    }
+    for _ in 0..n_thumb {
+        let mut r = rng.fork();
+        scenario_thumb_case(&mut d, &mut r);
+    }
     let n = d.run.reqs.len();
-    d.run.notes.push(format!("cases: {n}; scenarios well-formed {n_wf}, sdk-generated {n_sdk}, malformed {n_mal}"));
+    d.run.notes.push(format!("cases: {n}; scenarios well-formed {n_wf}, sdk-generated {n_sdk}, malformed {n_mal}, vendor {n_vendor} (every {builder_every}th through Builder/sign/Reader), foreign labels {n_foreign}, thumbnail case {n_thumb}"));
 }
